@@ -14,7 +14,9 @@ PROP = {'id': 'C10',
                'Cluster.update_job_status',
                'try_submit_jobs',
                'resubmit_jobs',
-               'cancel_jobs'],
+               'cancel_jobs',
+               'JobSubmitter._submit_to_hpc',
+               'JobSubmitter.submit_jobs'],
  'native': ['Cluster._serialize', 'resubmit_jobs'],
  'lemmas': ['lemma_c10_single_submitter'],
  'records': ['Cluster', 'ClusterConfig'],
@@ -22,7 +24,10 @@ PROP = {'id': 'C10',
  'assumptions': ['T-lock',
                  'A-host: handles are identified by process in the lemma, by hostname in the code; the promotion typestate precondition closes the gap for the '
                  'call sites under contract',
-                 'Cluster._deserialize (json load + pydantic, **kwargs) is an assumed contract'],
+                 'Cluster._deserialize (json load + pydantic, **kwargs) is an assumed contract',
+                 "link CLI -> round: JobSubmitter._submit_to_hpc is VERIFIED against HpcSubmitter.run's precondition; what remains assumed is "
+                 'HpcSubmitter.__init__ (field assignments) and that the state loaded by Cluster.deserialize / JobSubmitter.load satisfies the invariants '
+                 'every verified writer maintains (J, active ids <= max-nodes, group-parameter domain, configured names = job names)'],
  'not_decided': ['CLI call sites (cancel_jobs/resubmit_jobs callbacks; try_submit_jobs IS under contract) are not yet under contract: the discipline '
                  'precondition is checked only in HpcSubmitter/Cluster callers'],
  'explanation': '_serialize raises ConfigVersionMismatch iff the handle is stale and writes nothing before; promotion fails iff a submitter is recorded; lemma '
